@@ -208,7 +208,7 @@ func TestCheck(t *testing.T) {
 		r.Assume("API-shaped paths the generic WithRequestInfo filter cannot parse are answered by k8s.io/apiserver with a plain-text 500 before kubegateway code runs: excluded and counted (excluded_unparsable_api_path)")
 		r.Assume("request trailers, the Host header and the reason phrase are observed, not judged (not named by the statement)")
 
-		n := r.N(3000, 250000)
+		n := r.N(10000, 250000)
 		workers := 8
 		big := true
 		pool := make(chan *testbed, workers)
@@ -254,7 +254,7 @@ func TestCheck(t *testing.T) {
 			}
 		})
 		// second phase: request body + immediate large reply (see runBodyThenBigReply)
-		m := r.N(1500, 30000)
+		m := r.N(4000, 30000)
 		// (fewer exchanges at a time: the window was hit more often with little parallelism)
 		r.Parallel(m, workers/2, func(j int, g *vkit.Rand) {
 			i := n + j
